@@ -116,3 +116,14 @@ mut('c03-epilepsy-always', ['C03'], 'src/encode.rs', "if self.epilepsy_warning {
 mut('c03-source-needs-title', ['C03'], 'src/encode.rs', "if !self.source.is_empty() {", "if !self.source.is_empty() && !self.title.is_empty() {")
 mut('c03-named-colour-alpha', ['C03'], 'src/section/colors/mod.rs', "Ok(Self::new(r.parse()?, g.parse()?, b.parse()?, 255))", "Ok(Self::new(r.parse()?, g.parse()?, b.parse()?, 254))")
 mut('c03-countdown-as-name', ['C03'], 'src/section/general/mod.rs', "\"2\" | \"Half speed\" => Ok(Self::HalfSpeed),", "\"2\" | \"Half speed\" => Ok(Self::DoubleSpeed),")
+
+# ---- C06
+mut('c06-revert-F4', ['C06'], 'src/section/hit_objects/decode.rs', "        self.curve_points.clear();\n\n        self.point_split(point_str.split('|'), f)", "        self.point_split(point_str.split('|'), f)")
+mut('c06-timing-added-before-flags', ['C06'], 'src/section/timing_points/decode.rs', "        let mut kiai_mode = false;\n        let mut omit_first_bar_signature = false;\n", "        let mut kiai_mode = false;\n        let mut omit_first_bar_signature = false;\n        if timing_change && !beat_len.is_nan() { state.add_control_point(time, TimingPoint::new(time, beat_len, false, time_signature), true); }\n")
+mut('c06-od-assigned-before-parse', ['C06'], 'src/section/difficulty.rs', "                state.difficulty.overall_difficulty = value.parse_num()?;", "                state.difficulty.overall_difficulty = 5.0;\n                state.difficulty.overall_difficulty = value.parse_num()?;")
+mut('c06-break-pushed-before-end', ['C06'], 'src/section/events/decode.rs', "                let start_time = f64::parse(start_time)?;\n                let end_time = start_time.max(f64::parse(event_params)?);\n\n                state.breaks.push(BreakPeriod {\n                    start_time,\n                    end_time,\n                });", "                let start_time = f64::parse(start_time)?;\n                state.breaks.push(BreakPeriod { start_time, end_time: start_time });\n                let end_time = start_time.max(f64::parse(event_params)?);\n                state.breaks.last_mut().unwrap().end_time = end_time;")
+mut('c06-colour-name-registered', ['C06'], 'src/section/colors/decode.rs', "        let color: Color = value.parse()?;\n", "        if let ColorsKey::Name(ref name) = key { if !state.custom_colors.iter().any(|c| &c.name == name) { state.custom_colors.push(CustomColor { name: name.clone(), color: Color::default() }); } }\n        let color: Color = value.parse()?;\n")
+
+mut('c06-last-object-before-extras', ['C06'], 'src/section/hit_objects/decode.rs', "            let duration = (duration - start_time).max(0.0);\n", "            let duration = (duration - start_time).max(0.0);\n            state.last_object = Some(hit_object_type);\n")
+
+mut('c06-pending-time-leaks-on-error', ['C06'], 'src/section/timing_points/decode.rs', "        let beat_len = beat_len\n            .trim()\n            .parse::<f64>()\n            .map_err(ParseNumberError::InvalidFloat)?;", "        let beat_len = match beat_len.trim().parse::<f64>() {\n            Ok(v) => v,\n            Err(e) => {\n                state.pending_control_points_time = time;\n                return Err(ParseNumberError::InvalidFloat(e).into());\n            }\n        };")
